@@ -9,7 +9,7 @@ DRIVER = os.path.join(VERIF, "lean", ".lake", "build", "bin", "sydriver")
 def run_stream(st, prop, tier, seed, work, replay=None):
     if st["kind"] == "rust":
         out = os.path.join(work, st["name"] + ".json")
-        cmd = [HARNESS, st["name"], "--tier", tier, "--seed", str(seed), "--driver", DRIVER, "--out", out,
+        cmd = [HARNESS, st["name"], "--tier", tier, "--seed", str(seed), "--driver", DRIVER, "--sy", os.path.join(BUILD, "target", "debug", "sy"), "--out", out,
                "--work", os.path.join(work, st["name"])] + st.get("args", []) + (["--replay", replay] if replay and st.get("replayable") else [])
         r = subprocess.run(cmd, text=True, stdout=subprocess.PIPE, stderr=subprocess.STDOUT)
         if r.returncode != 0 or not os.path.exists(out):
